@@ -11,7 +11,7 @@ def main(tier, replay=None):
         dict(scn="c11", name="cdb-truncated-at-every-length", opts=["family=cdbcut"], bounds="0,0,0,0", total=0),
         dict(scn="c11", name="one-failing-call", opts=["family=faults"], bounds="0,%d,0,0" % (1 if tier == "quick" else 2), total=2),
     ]
-    run_families(res, "C11", tier, fams)
+    plain_src = run_families(res, "C11", tier, fams)
     res.rule = ("for every ordered subset (size <= 3) of an 11-line users/assign pool (exact, wildcards with nested prefixes and two break characters, "
                 "duplicate exact and wildcard keys, mixed case, a uid-0 entry, a malformed line) the real qmail-newu compiles the table; the real "
                 "qmail-lspawn (spawn.c, real qmail-getpw for the password-file fallback, virtual passwd with root/ownerless/missing homes, 31- and "
@@ -21,4 +21,5 @@ def main(tier, replay=None):
                 "failing read/lseek/open/stat/fork/pipe/setgroups/setgid/setuid must defer, never bounce or change identity")
     res.assumptions = ["virtual kernel (appendix A)", "bin/qmail-local is a stand-in that exits 0 (its own behaviour is C12/C13)"]
     res.require_nonzero("evaluations", "lookups_checked", "deliveries_as_user", "deliveries_refused", "malformed_tables_refused", "deferred_on_error")
+    lib_conformance(res, rundir("C11lib"), plain_src, ['bytes', 'cdb', 'num'], tier, asan=False)
     return res.finish()
